@@ -171,10 +171,10 @@ def solve_conds(conds, i, env):
         e[c.var] = c.e.ev(env)
         yield from solve_conds(conds, i + 1, e)
     elif isinstance(c, IfLet):
-        v = c.e.ev(env)
-        if v is not None:
+        ok, bv = c.match(c.e.ev(env))
+        if ok:
             e = dict(env)
-            e[c.var] = v[0]
+            e[c.var] = bv
             yield from solve_conds(conds, i + 1, e)
     else:
         raise RefError('bad cond')
